@@ -10,6 +10,7 @@ import Martian.Refactor
 import Proofs.RefactorRename
 import Proofs.RefactorRemove
 import Proofs.RefactorRemoveOutput
+import Proofs.RefactorGraphIn
 
 namespace Props.C19
 open Martian.Refactor
@@ -169,5 +170,39 @@ theorem fixpoint_needs_invariant :
     (removeStep P0 false ["T"] P).2 = true ∧ (removeStep P0 false ["T"] P).1 = P := by decide
 
 example : (removeStep exProg true ["P"] exProg).2 = false := by decide
+
+/-! ### the resolved call graph with deep inlining (Martian/RefactorGraph.lean)
+
+`deepGraph ti p` is the model of `Ast.MakeCallGraph` (tied to it on every run by
+the `C19.graph` correspondence): one node per call reachable from the top-level
+call, with its inputs resolved through the enclosing pipelines' bindings and
+the sub-pipelines' return bindings down to stage outputs and literals, narrowed
+to the declared parameter types (`ti`: struct member lists, typed signatures). -/
+
+/-- the types of the example program: `S(in int a, out int o)`, `T` alike, `P(in int a, out int r)` -/
+def exTi : TypeInfo :=
+  ⟨[], [("S", [("a", ⟨"int", 0, 0⟩)]), ("T", [("a", ⟨"int", 0, 0⟩)]), ("P", [("a", ⟨"int", 0, 0⟩)])],
+       [("S", [("o", ⟨"int", 0, 0⟩)]), ("T", [("o", ⟨"int", 0, 0⟩)]), ("P", [("r", ⟨"int", 0, 0⟩)])]⟩
+
+/-- **rename_input_graph.**  Renaming input `a` of callable `x` to a fresh name
+`b` leaves the resolved call graph unchanged except that every node of a call
+of `x` carries its resolved input under the key `b` instead of `a`: the same
+nodes (fqids, callables), the same resolved expressions for every input of
+every call at every depth, the same resolved outputs and retained references.
+`RenInOK` (decidable) is the freshness / well-formedness hypothesis: `b` is not
+an input of `x`, is not referred to as `self.b` inside `x` and is bound by no
+call of `x`; no wildcard bindings (known finding KF1); call ids are distinct. -/
+theorem rename_input_graph (x a b : String) (ti : TypeInfo) (p : Program)
+    (hok : RenInOK x a b ti p = true) :
+    deepGraph (ti.renameInput x a b) (renameInput x a b p)
+      = (deepGraph ti p).map (renNodeIn x a b) := by
+  exact Proofs.RefactorGraph.rename_input_graph x a b ti p hok
+
+/-- non-vacuity: the hypothesis holds for the example (stage input, and the
+pipeline input `P.a`, whose renaming rewrites `self.a` inside `P` and the
+top-level call), the graph has 4 nodes and the renaming changes it. -/
+example : RenInOK "S" "a" "z" exTi exProg = true ∧ RenInOK "P" "a" "z" exTi exProg = true
+    ∧ (deepGraph exTi exProg).length = 4
+    ∧ (deepGraph exTi exProg).map (renNodeIn "S" "a" "z") ≠ deepGraph exTi exProg := by decide
 
 end Props.C19
